@@ -45,6 +45,9 @@ type state struct {
 
 func (prop) Run(t *testing.T, s *sim.Sim, res *runner.Result) {
 	st := &state{taskOf: map[int]types.NamespacedName{}, created: map[string]map[string]bool{}}
+	// the recorded bind race (DESIGN.md §0.5) does not end a run: the other
+	// oracles keep judging the rest of it
+	s.NotePrefixes = []string{"C06/touched-foreign-xr/bound-by-the-other-claim-after-this-reconcile-first-looked"}
 	xrworld.Run(s, res, xrworld.Hooks{
 		Opts: func(tp *sim.Tape) xrworld.Opts {
 			return xrworld.Opts{Claims: true, SSAClaims: tp.Next(2) == 1, LagClaims: tp.Next(4) > 0}
